@@ -308,7 +308,7 @@ func runC16(c *Ctx) {
 	}
 
 	// ---- random
-	nrand := 6500
+	nrand := 5000
 	if c.Thorough() {
 		nrand = 40000
 	}
